@@ -117,9 +117,17 @@ type userFn struct {
 	at, kind, calls int
 }
 
+// c02OnFail, when set, runs right before a user function returns an error
+// that ends the sequence (the consumer uses it to end the context of the call
+// that is in flight at that very moment).
+var c02OnFail func()
+
 func (u *userFn) hit() error {
 	u.calls++
 	if u.kind != ufNone && u.calls == u.at {
+		if (u.kind == ufError || u.kind == ufAbort) && c02OnFail != nil {
+			c02OnFail()
+		}
 		switch u.kind {
 		case ufSkip:
 			return fun.ErrIteratorSkip
@@ -310,6 +318,7 @@ func c02Stage(ctx context.Context, allowFault bool) stage {
 
 func c02Run(w *W) {
 	p := &pipe{}
+	c02OnFail = nil
 	ctx := w.Ctx
 	// ---- sources ----
 	var desc []string
@@ -384,6 +393,14 @@ func c02Run(w *W) {
 		rat, rkind = 1+simrt.Choose(4), 1+simrt.Choose(3)
 		tnames[2] = fmt.Sprintf("Reduce(sum)[%s@%d]", ufNames[rkind], rat)
 	}
+	// "read with a deadline": the first element is read with the long-lived
+	// context, every further one with a context of its own that is ended
+	// after the call - and, as a fault, during the very call in which a user
+	// function fails
+	perCall := term == 1 && w.faulty() && simrt.Choose(2) == 0
+	if perCall {
+		tnames[1] = "ReadOne*[per-call contexts]"
+	}
 	w.Config("%s | %s -> %v", strings.Join(desc, " | "), tnames[term], ref)
 	w.State(fmt.Sprintf("stages=%d term=%s", nst, tnames[term]))
 	done := false
@@ -398,8 +415,22 @@ func c02Run(w *W) {
 			}
 		case 1:
 			var got []int
-			for {
-				v, err := it.ReadOne(ctx)
+			endedInFlight := false
+			for k := 0; ; k++ {
+				cctx, cancel := ctx, context.CancelFunc(func() {})
+				if perCall && k > 0 {
+					cctx, cancel = context.WithCancel(ctx)
+					c02OnFail = func() {
+						if !endedInFlight {
+							endedInFlight = true
+							w.Fault("call-context-ended-while-user-function-fails")
+						}
+						cancel()
+					}
+				}
+				v, err := it.ReadOne(cctx)
+				c02OnFail = nil
+				cancel()
 				if err != nil {
 					break
 				}
@@ -411,7 +442,15 @@ func c02Run(w *W) {
 					mismatch = fmt.Sprintf("ReadOne yielded %d after it had returned an error (sequence so far %v)", v, got)
 				}
 			}
-			if mismatch == "" && !sameSeq(got, ref) {
+			if mismatch == "" && endedInFlight {
+				// the failing call may report the context's error or the
+				// function's; what was yielded before it is a prefix of the
+				// specification either way (a Join behind the failing stage
+				// cannot move on under an ended context)
+				if len(got) > len(ref) || !sameSeq(got, ref[:len(got)]) {
+					mismatch = fmt.Sprintf("ReadOne sequence = %v is not a prefix of %v", got, ref)
+				}
+			} else if mismatch == "" && !sameSeq(got, ref) {
 				mismatch = fmt.Sprintf("ReadOne sequence = %v, want %v", got, ref)
 			}
 		case 2:
